@@ -50,13 +50,13 @@ def big(tier, name):
 
 
 # ------------------------------------------------------------------------------------------------ schedules
-def mk(kind, J, T, inacc, cap, nocopy, unit=None, ready=False, scribble=True, max_items=8, lens=None, steps=None, rnd=None, src=""):
+def mk(kind, J, T, inacc, cap, nocopy, unit=None, ready=False, scribble=True, max_items=8, lens=None, steps=None, rnd=None, src="", slack=0):
     div = 100 // (inacc or 25)
     if T % div:
         raise ValueError("T must be a multiple of Div")
     return dict(kind=kind, J=J, T=T, inacc=inacc, Div=div, I=T // div if T else 0, cap=cap, nocopy=nocopy,
                 unit_ns=unit or (V1UNIT if kind == "v1" else MS), ready=ready, scribble=scribble, maxItems=max_items,
-                lens=lens or [0, 1, max(J - 1, 1), J, J + 1], steps=steps, rand=rnd, src=src)
+                lens=lens or [0, 1, max(J - 1, 1), J, J + 1], steps=steps, rand=rnd, src=src, slack=slack)
 
 
 TIMINGS = [(0, 0), (4, 50), (4, 25), (4, 100), (4, 0), (6, 34), (6, 30), (2, 50), (1, 100)]   # (T units, inaccuracy)
@@ -77,8 +77,46 @@ def random_schedules(rng, n, kinds, weights, ready=False, timings=None, nocopy=N
         unit = None
         if kind != "v1" and rng.random() < 0.15:
             unit = NS                                            # "a few ns" profile
-        out.append(mk(kind, rng.choice(sizes), T, inacc, rng.choice(caps), nc, unit=unit, ready=ready, scribble=scribble,
-                      max_items=max_items, rnd=dict(seed=rng.getrandbits(40), n=steps, w=w), src=src))
+        J = rng.choice(sizes)
+        out.append(mk(kind, J, T, inacc, rng.choice(caps), nc, unit=unit, ready=ready, scribble=scribble,
+                      max_items=max_items, rnd=dict(seed=rng.getrandbits(40), n=steps, w=w), src=src,
+                      slack=rng.choice([0, 0, 1, J, 2 * J]) if kind == "unite" else 0))     # producers reuse batch buffers: cap > len
+    return out
+
+
+def directed_schedules(prop):
+    """hand-written schedule families for corners that random walks reach rarely (explicit steps; a step that is not enabled is skipped)"""
+    out = []
+    if prop in ("C09", "C03"):
+        # a full slice whose write to the output BLOCKS for a while (consumer behind, output full), then fewer than JoinSize
+        # elements and silence: the short slice may only be flushed Timeout after the blocked slice was really delivered
+        for cap in (0, 1):
+            for block in (1, 2, 3):
+                for T, inacc in ((4, 25), (4, 50), (6, 34)):
+                    fill = ["W", "W"] * (2 + cap) + ["W"] * cap
+                    steps = fill + ["A"] * block + ["R"] * (3 + cap) + ["W"] + ["A"] * (2 * T + 2) + ["R", "W", "W", "A", "R", "C", "A", "R", "R"]
+                    out.append(mk("join", 2, T, inacc, cap, False, steps=steps, src="directed:blocked-write-then-short"))
+    if prop in ("C10", "C09"):
+        # the last pass came from a FULL join (passAt off the tick grid), one element is buffered, and another one arrives after
+        # the accumulation period expired but before the next tick
+        for T, inacc in ((4, 50), (6, 34), (6, 30), (4, 100)):
+            div = 100 // inacc
+            I = T // div
+            for off in range(1, I + 1) if I > 1 else (0,):
+                for late in range(0, I):
+                    pre = ["A"] * off + ["W", "W", "W", "R"] + ["A", "W"]
+                    wait = ["A"] * max(T - 1 + late, 0)
+                    steps = pre + wait + ["W"] + (["A", "R"] * (2 * T + 2 * I + 2)) + ["C", "A", "R", "R"]
+                    for nocopy in (False, True):
+                        out.append(mk("join", 3, T, inacc, 0, nocopy, ready=True, steps=steps if not nocopy else [x for st in steps for x in ([st, "L"] if st == "R" else [st])],
+                                      src="directed:arrival-between-expiry-and-tick"))
+    if prop in ("C11", "C03", "C09"):
+        # reused batch buffers: empty and short slices with spare capacity >= JoinSize
+        for J in (2, 3, 4):
+            for T, inacc in ((0, 0), (4, 50)):
+                for nocopy in (False, True):
+                    steps = ["W2", "W0", "W1", "W0", "R", "L", "W2", "W2", "W0", "R", "L", "A", "A", "R", "L", "W%d" % J, "W0", "W1", "R", "L", "C", "R", "L", "R", "L", "R", "L"]
+                    out.append(mk("unite", J, T, inacc, 2, nocopy, steps=steps, src="directed:spare-capacity", slack=2 * J))
     return out
 
 
@@ -401,6 +439,9 @@ def run_engine(v, tier, prop, design_jobs, make_schedules, level_note=""):
         binary = os.path.join(sc, "joinh.test")
         build_test("joinh", binary, race=True)
         scheds, extra = make_schedules(v, sc, rng)
+        directed = directed_schedules(prop)
+        scheds += directed
+        extra["directed_schedules"] = len(directed)
         traces, notes, races, wall = record(binary, sc, scheds, timeout=900 if tier == "quick" else 3000)
         strict, findings, strict_errors = validate(v, sc, traces)
         mine = [b for b in findings if b["prop"] == prop]
